@@ -7,6 +7,7 @@ import (
 	"io"
 	"strconv"
 	"strings"
+	"sync"
 	"time"
 	"unicode/utf8"
 
@@ -32,9 +33,10 @@ type c22D struct {
 	val  string
 }
 type c22P struct {
-	kind byte // L S D E C A T
+	kind byte // L S D E C A T O
 	val  string
 	ds   []c22D
+	op   byte // kind 'O': a ${u0:-"val"}  b ${u0-'val'}  c ${s0:+"val"}  d ${s0+'val'}  (u0 unset, s0=5)
 }
 type c22Case struct {
 	rawWord string // search leg only: the word as source text
@@ -74,6 +76,14 @@ func c22Tokens(parts []c22P, model bool) []string {
 			}
 		case 'A', 'T':
 			out = append(out, string(p.kind))
+		case 'O':
+			// a default / alternative expansion whose quoted operator word is substituted: for the
+			// model it is an unquoted expansion with that value
+			if model {
+				out = append(out, "E"+hx(p.val))
+			} else {
+				out = append(out, "O"+string(p.op)+hx(p.val))
+			}
 		case 'D':
 			out = append(out, "D(")
 			for _, d := range p.ds {
@@ -148,6 +158,8 @@ func c22ParseCase(f []string) (cs c22Case, ok bool) {
 			cs.parts = append(cs.parts, p)
 		case t == "A" || t == "T":
 			cs.parts = append(cs.parts, c22P{kind: t[0]})
+		case t[0] == 'O' && len(t) >= 3:
+			cs.parts = append(cs.parts, c22P{kind: 'O', op: t[1], val: unhx(t[2:])})
 		case t[0] == 'L' || t[0] == 'S' || t[0] == 'E' || t[0] == 'C':
 			cs.parts = append(cs.parts, c22P{kind: t[0], val: unhx(t[1:])})
 		default:
@@ -194,6 +206,17 @@ func c22Word(parts []c22P, shellStyle bool) (string, []string) {
 			sb.WriteString("$@")
 		case 'T':
 			sb.WriteString("$*")
+		case 'O':
+			switch p.op {
+			case 'a':
+				sb.WriteString(`${u0:-"` + p.val + `"}`)
+			case 'b':
+				sb.WriteString(`${u0-'` + p.val + `'}`)
+			case 'c':
+				sb.WriteString(`${s0:+"` + p.val + `"}`)
+			default:
+				sb.WriteString(`${s0+'` + p.val + `'}`)
+			}
 		case 'D':
 			sb.WriteString(`"`)
 			for _, d := range p.ds {
@@ -227,6 +250,21 @@ func (e c22Env) Each(f func(string, expand.Variable) bool) {
 			return
 		}
 	}
+}
+
+var c22ProbeOnce sync.Once
+var c22Probe *syntax.Word
+
+// c22ProbeWord: a word that exercises every accumulation path of wordFields.
+func c22ProbeWord() *syntax.Word {
+	c22ProbeOnce.Do(func() {
+		f, err := syntax.NewParser().Parse(strings.NewReader(`p zz"q q"$@'y z'${s0:+"w"}$*`+"\n"), "")
+		if err != nil {
+			panic(err)
+		}
+		c22Probe = f.Stmts[0].Cmd.(*syntax.CallExpr).Args[1]
+	})
+	return c22Probe
 }
 
 func c22Fields(cs c22Case) string { return c22Expand(cs, 0) }
@@ -264,6 +302,7 @@ func c22Expand(cs c22Case, mode int) string {
 		for i, v := range vars {
 			env["v"+strconv.Itoa(i)] = expand.Variable{Set: true, Kind: expand.String, Str: v}
 		}
+		env["s0"] = expand.Variable{Set: true, Kind: expand.String, Str: "5"} // u0 stays unset
 		if cs.ifsSet {
 			env["IFS"] = expand.Variable{Set: true, Kind: expand.String, Str: cs.ifs}
 		}
@@ -298,6 +337,15 @@ func c22Expand(cs c22Case, mode int) string {
 			out = "error"
 			return
 		}
+		// aliasing probe: what one call returned must not change when another expansion on the same
+		// Config follows (wordFields builds its result in per-Config scratch arrays)
+		snap := strings.Join(fields, "\x00")
+		if _, err := expand.Fields(cfg, c22ProbeWord(), call.Args[1]); err == nil {
+			if now := strings.Join(fields, "\x00"); now != snap {
+				out = fmt.Sprintf("aliased %q -> %q", snap, now)
+				return
+			}
+		}
 		out = strings.TrimSpace(strconv.Itoa(len(fields)) + " " + hxs(fields))
 	})
 	if p != "" {
@@ -314,6 +362,22 @@ func c22Expand(cs c22Case, mode int) string {
 // (The exclusions for non-white-space IFS delimiters, an empty "" next to an expansion, an empty
 // unquoted literal and unquoted $@ with empty parameters went away with fe5aeee, d04d00a, 51168a7.)
 func c22Excluded(cs c22Case) (bool, string) {
+	ifsv := cs.ifsv()
+	for i, p := range cs.parts {
+		// ${u0:-"val"}: the model (and the value-based specification) see an unquoted expansion with
+		// the value val.  That is the same thing as the quoted word only when val holds no IFS
+		// character and, when val is empty, something before it already makes the field present.
+		if p.kind == 'O' {
+			for _, r := range p.val {
+				if strings.ContainsRune(ifsv, r) {
+					return true, "opword-abstraction"
+				}
+			}
+			if p.val == "" && !(i > 0 && (cs.parts[i-1].kind == 'S' || cs.parts[i-1].kind == 'L' && cs.parts[i-1].val != "")) {
+				return true, "opword-abstraction"
+			}
+		}
+	}
 	for _, p := range cs.parts {
 		if p.kind != 'D' {
 			continue
@@ -351,6 +415,7 @@ func c22Script(cs c22Case) string {
 	for i, v := range vars {
 		fmt.Fprintf(&sb, "v%d=%s\n", i, c22SQ(v))
 	}
+	sb.WriteString("s0=5; unset u0\n")
 	sb.WriteString("set --")
 	for _, p := range cs.params {
 		sb.WriteString(" " + c22SQ(p))
@@ -425,7 +490,7 @@ func c22BashArtifact(cs c22Case) bool {
 	}
 	for _, p := range cs.parts {
 		switch p.kind {
-		case 'L', 'S':
+		case 'L', 'S', 'O':
 			// a multi-byte IFS character in quoted / literal text: bash protects (CTLESC) its first
 			// byte only and splits the character in two
 			if hasMulti(p.val) {
@@ -543,6 +608,7 @@ func c22AsgScript(cs c22Case) string {
 	} else {
 		sb.WriteString("unset IFS\n")
 	}
+	sb.WriteString("s0=5; unset u0\n")
 	sb.WriteString("r=" + src + "\nprintf '%s:%s' \"${#r}\" \"$r\"\n")
 	return sb.String()
 }
@@ -754,6 +820,20 @@ func c22GenCase(r *Rand, clean bool, thorough bool) c22Case {
 			cs.parts = append(cs.parts, c22P{kind: 'L', val: c22GenLit(r)})
 			lastLit = true
 			continue
+		case k < 6 && r.Chance(45):
+			// default / alternative expansion with a quoted operator word that is substituted;
+			// parts before and after it come from the other branches
+			var alpha []string
+			for _, a := range []string{"b", "q", "7", "é", "-", ".", ",", ":", " ", "x y"} {
+				if !strings.ContainsAny(a, ifsv) || r.Chance(10) {
+					alpha = append(alpha, a)
+				}
+			}
+			v := ""
+			if len(alpha) > 0 && !r.Chance(15) {
+				v = genFrom(r, alpha, 2)
+			}
+			cs.parts = append(cs.parts, c22P{kind: 'O', op: "abcd"[r.Intn(4)], val: v})
 		case k < 6:
 			cs.parts = append(cs.parts, c22P{kind: 'S', val: c22GenSgl(r, ifsv)})
 		case k < 11:
@@ -817,6 +897,9 @@ func c22GenCase(r *Rand, clean bool, thorough bool) c22Case {
 
 func c22RunCase(c *Ctx, cs c22Case, spec bool) {
 	got := c22Fields(cs)
+	if strings.HasPrefix(got, "aliased") {
+		c.Fail("wf "+c22OpArgs(cs, false), "the fields returned by expand.Fields changed when a second expansion ran on the same Config: "+got)
+	}
 	c.Op("wf "+c22OpArgs(cs, true), got)
 	ex, why := c22Excluded(cs)
 	tags := []string{"wf", "ifs=" + func() string {
